@@ -70,14 +70,30 @@ def group_obs(g):
 
 
 def read_all(m, reads):
+    """One token per attribute read.  A name that is not a metadata field must raise AttributeError (the harness only reads fields and
+    names that are no attribute of the class at all); anything else escapes to the runner (!EXC:<class> for the whole case)."""
     out = []
     for f in reads:
         try: out.append(render(getattr(m, f)))
         except InvalidMetadata as e: out.append("E:" + e.field)
+        except AttributeError:
+            if f in SPEC_ADDED: raise
+            out.append("!EXC:AttributeError")
     return out
 
 
 def oracle(comp, s):
+    """verdict of one component on one string: [] = its documented exception, ["v"+str(result), ...] = accepted,
+    ["x"+class] = it raised something else (three-valued oracle of MetaModel3.v)"""
+    try:
+        return oracle2(comp, s)
+    except RecursionError:
+        return ["xRecursionError"]
+    except Exception as e:
+        return ["x" + type(e).__name__]
+
+
+def oracle2(comp, s):
     if comp == "0":
         try: return ["v" + str(SpecifierSet(s))]
         except InvalidSpecifier: return []
@@ -120,7 +136,7 @@ def observe(cmd, args):
         for k, v in raw.items(): toks += encode_value(k, v)
         toks += ["U" + k for k in unparsed]
         return json.dumps(toks)
-    if cmd in ("m.from_raw", "m.from_email"):
+    if cmd in ("m.from_raw", "m.from_email", "m.from_email_doc"):
         validate = args[0] == "T"
         data, unparsed, reads, doc = decode_tokens(args[1:])
         before = copy.deepcopy(data)
